@@ -1373,9 +1373,8 @@ fn fs_cmd_archive(
             return match cmd {
                 "readDirectory" => {
                     let files =
-                        list_archive_contents_cached(&mut source, &archive_path.to_string_lossy())
-                            .unwrap();
-                    // info!(log, "got files:{:?}", files);
+                        list_archive_contents_cached(&mut source, &archive_path.to_string_lossy())?; // e.g. corrupt archive -> err reply
+                                                                                                     // info!(log, "got files:{:?}", files);
 
                     // special handling for e.g. bz2, .gz... where a single file is within the archive with "unknown" name ("data"):
                     if files.len() == 1 && files[0] == "data" {
@@ -1398,9 +1397,8 @@ fn fs_cmd_archive(
                 }
                 "stat" => {
                     let files =
-                        list_archive_contents_cached(&mut source, &archive_path.to_string_lossy())
-                            .unwrap();
-                    // special handling for e.g. bz2, .gz... where a single file is within the archive with "unknown" name ("data"):
+                        list_archive_contents_cached(&mut source, &archive_path.to_string_lossy())?; // e.g. corrupt archive -> err reply
+                                                                                                     // special handling for e.g. bz2, .gz... where a single file is within the archive with "unknown" name ("data"):
                     if files.len() == 1 && files[0] == "data" {
                         return Ok(
                             serde_json::json!({"stat":{"size": 42 ,"type":"file", "mtime":0, "ctime":0}}),
